@@ -65,7 +65,11 @@ func refDefects(c strCase) spec.DefectSet {
 // decoder, mutated vectors, single-defect vectors, arbitrary strings.
 func drawStringCase(rt *rapid.T, ver int, maxAny int) (strCase, []string) {
 	nilRecv := rapid.Bool().Draw(rt, "nilrecv")
-	switch k := rapid.IntRange(0, 9).Draw(rt, "source"); {
+	switch k := rapid.IntRange(0, 10).Draw(rt, "source"); {
+	case k == 10: // structured hostile shapes: floods, long tokens, look-alikes, dense text
+		dec := gen.Level().Draw(rt, "decoder")
+		s, label := gen.RandomShape(rt, ver)
+		return newStrCase(ver, dec, nilRecv, s), []string{"gen:shape", label}
 	case k <= 1: // valid vector of some level at some decoder
 		src := gen.Level().Draw(rt, "srclevel")
 		dec := gen.Level().Draw(rt, "decoder")
@@ -97,7 +101,7 @@ func drawStringCase(rt *rapid.T, ver int, maxAny int) (strCase, []string) {
 // editDistanceSmall tells whether the labels describe a near-valid input (<= 3 edits).
 func nearValid(cl []string) bool {
 	for _, l := range cl {
-		if l == "gen:mutated" || l == "gen:single-defect" {
+		if l == "gen:mutated" || l == "gen:single-defect" || l == "gen:shape" {
 			return true
 		}
 	}
@@ -143,4 +147,31 @@ func quoteShort(b []byte) string {
 		return strconv.QuoteToASCII(s)
 	}
 	return strconv.Quote(s)
+}
+
+// forEachShape enumerates the deterministic hostile shapes (gen.Shapes) of two
+// representative vectors per version at every decoder level.
+func forEachShape(ver int, f func(i int, cs strCase, label string)) {
+	reps := representatives(ver)
+	i := 0
+	for _, v := range []spec.Vec{reps[0], reps[4]} {
+		for lv := spec.Base; lv <= spec.Environmental; lv++ {
+			gen.Shapes(ver, v, lv, thorough(), func(s, label string) {
+				i++
+				cs := newStrCase(ver, lv, i%2 == 0, s)
+				if len(s) > 200 {
+					cs.Text = fmt.Sprintf("(%d bytes) %s", len(s), quoteShort(cs.Input))
+				}
+				f(i, cs, label)
+			})
+		}
+	}
+}
+
+func shapeClass(label string) string {
+	p := strings.SplitN(label, ":", 3)
+	if len(p) >= 2 {
+		return "shape:" + p[0] + ":" + p[1]
+	}
+	return "shape:" + label
 }
